@@ -133,6 +133,16 @@ class Check:
         self.findings = [f for f in load_known_findings().get('findings', []) if f.get('property') == prop or prop in f.get('properties', [])]
         os.makedirs(BUILD, exist_ok=True)
         os.makedirs(REPLAYS, exist_ok=True)
+        # keep the replay directory bounded: drop this property's replays of earlier runs (older than 6 h)
+        try:
+            now = time.time()
+            for f in os.listdir(REPLAYS):
+                if f.startswith(prop + '-'):
+                    q = os.path.join(REPLAYS, f)
+                    if now - os.path.getmtime(q) > 6 * 3600:
+                        os.unlink(q)
+        except OSError:
+            pass
 
     def log(self, *a):
         msg = ' '.join(str(x) for x in a)
